@@ -24,6 +24,10 @@ def main():
     conf = props.PROPS[prop]
     if "replay" in conf:
         sys.exit(conf["replay"](d))
+    if "steps" not in r or "decl" not in r:
+        print(json.dumps(d, indent=1, default=str)[:6000])
+        print("(this replay is a parameter record of a contract / twin check; re-run the check with the same VERIF_SEED to reproduce)")
+        sys.exit(0)
     runner = Runner(r["decl"], steer_rng=np.random.default_rng(0), mode=r.get("mode", "steer"),
                     script=[x for x in r.get("script", [])], contraction=r.get("contraction", True))
     hit = False
@@ -47,7 +51,7 @@ def main():
             print("    blocks:", [(b["kind"], b["level"], b["members"]) for b in bl], "live:", live(rec.post))
         except Malformed as e:
             print("    post malformed:", e)
-        for oracle in conf["oracles"]:
+        for oracle in (conf.get("oracles") or conf.get("replay_oracles") or []):
             for v in oracle(rec):
                 print(f"    [{v['prop']}] {v['status']} {v['mode']} {v['detail'][:300]} sig={v['sig']}")
                 if v["status"] == "violated" and v["mode"] == d.get("mode"):
